@@ -166,28 +166,16 @@ Theorem C19_writer_no_panic :
   forall w h data ts now, snd (w_write w h data ts now) <> WPanic.
 Proof. exact w_write_no_panic. Qed.
 
-(* a refused write stores no sample: sequence number, transport writer and every instance's
-   samples are untouched; the instance list is unchanged or has gained h with no samples *)
+(* a refused write stores nothing: sequence number, transport writer, every instance's samples
+   AND the list of registered instances are unchanged (the state is the same) *)
 Theorem C19_writer_refused_stores_no_sample :
   forall w h data ts now, snd (w_write w h data ts now) = WOutOfResources ->
     let w' := fst (w_write w h data ts now) in
-    w_seq w' = w_seq w /\ w_changes w' = w_changes w /\ w_qos w' = w_qos w /\
-    (w_insts w' = w_insts w \/
-     (find_wi h (w_insts w) = None /\ w_insts w' = w_insts w ++ [mkWI h None []])).
+    w_seq w' = w_seq w /\ w_changes w' = w_changes w /\ w_qos w' = w_qos w /\ w_insts w' = w_insts w.
 Proof. exact w_refused_stores_no_sample. Qed.
-(* RECORDED DEVIATION C19-failed-write-registers-instance: "stores nothing" fails for the
-   instance registry — the witness: max_samples 1, max_instances 2; the refused write of
-   instance 2 leaves it registered and instance 3 is then refused for max_instances although
-   it could have been registered before *)
-Theorem C19_writer_refused_registers_instance :
-  exists q ops h data ts now,
-    let w := w_run q ops in
-    snd (w_write w h data ts now) = WOutOfResources /\
-    w_insts (fst (w_write w h data ts now)) <> w_insts w /\
-    snd (w_write (fst (w_write w h data ts now)) 3 0 0 0) = WOutOfResources /\
-    snd (w_write w 3 0 0 0) = WOutOfResources /\ w_register w 3 <> None.
-Proof. exact w_refused_registers_refuted. Qed.
-(* outside that class (the instance is already registered) a refused write changes nothing at all *)
+Theorem C19_writer_refused_unchanged :
+  forall w h data ts now, snd (w_write w h data ts now) = WOutOfResources -> fst (w_write w h data ts now) = w.
+Proof. exact w_refused_unchanged. Qed.
 Theorem C19_writer_refused_registered_unchanged :
   forall w h data ts now s, find_wi h (w_insts w) = Some s ->
     snd (w_write w h data ts now) = WOutOfResources -> fst (w_write w h data ts now) = w.
@@ -250,7 +238,7 @@ Print Assumptions C19_writer_samples_per_instance_test_means.
 Print Assumptions C19_writer_samples_test_means.
 Print Assumptions C19_writer_no_panic.
 Print Assumptions C19_writer_refused_stores_no_sample.
-Print Assumptions C19_writer_refused_registers_instance.
+Print Assumptions C19_writer_refused_unchanged.
 Print Assumptions C19_writer_refused_registered_unchanged.
 Print Assumptions C19_writer_accepted_records_one.
 Print Assumptions C19_writer_keep_last_bound.
